@@ -91,7 +91,7 @@ func c11SR(c *core.Ctx) {
 	get := func(n string) float64 { return ps[paramIndex(desc, n)][0] }
 	bias, k, m, area, dead, dt := get("InflowBias"), get("RoutingConstant"), get("RoutingPower"), get("area"), get("deadStorage"), get("DeltaT")
 	routing.VerifRoutingPathCounts()
-	out, err := Execute(run)
+	out, err := ExecuteFor(c, run)
 	if err != nil {
 		c.Violate("prepare", model, err.Error())
 		return
@@ -381,7 +381,7 @@ func c11Lag(c *core.Ctx) {
 	for s, l := range lens {
 		in := series[pos : pos+l]
 		run := &MRun{Model: model, N: 1, T: l, Sets: []PSet{{{float64(lag)}}}, Inputs: [][][]float64{{append([]float64{}, in...)}}, States: states}
-		out, err := Execute(run)
+		out, err := ExecuteFor(c, run)
 		if err != nil {
 			c.Violate("prepare", model, err.Error())
 			return
